@@ -9,6 +9,8 @@ from props import c12
 
 ID = "C06"
 LEAN_TARGETS = ["PV.Props.C06"]
+# T-C tie (DESIGN 2.3): kernels traced from the current source are proved equal to the model over the reals
+EQUIV = {'PV.Equiv.Astro': ['gmst_eq', 'sun_ecliptic_longitude_eq', 'sun_ra_dec_eq', 'cos_zen_eq', 'sun_zenith_angle_eq', 'get_alt_az_eq', 'sun_earth_distance_correction_eq']}
 RULE = ("instants 1950-2050 uniform plus solstices/equinoxes/year boundaries x lon in [-360,360] x lat in [-90,90] incl. poles, "
         "scalars and arrays; correspondence: all ten sun quantities (ecliptic longitude, RA, dec, cos_zen, zenith, altitude, "
         "azimuth, distance, obliquity, mean anomaly) model vs astronomy.py at 1e-11; oracle: the Almanac low-precision sun "
